@@ -147,6 +147,16 @@ class Facts:
         self.config = config
         self.dir = extract(config, repo)
         self.crates = {}
+        for f in sorted(os.listdir(self.dir)):
+            if not f.endswith('.lib.json'):
+                continue
+            with open(os.path.join(self.dir, f)) as fh:
+                d = json.load(fh)
+            self.crates[d['crate']] = d
+        self.index()
+
+    def index(self):
+        """(re)build the lookup tables from self.crates"""
         self.bodies = {}        # path -> body
         self.by_hash = {}       # def-path hash -> body
         self.const_bodies = {}  # generic associated constants: path -> MIR body
@@ -157,13 +167,7 @@ class Facts:
         self.adts = {}
         self.consts = {}
         self.fns = {}
-        for f in sorted(os.listdir(self.dir)):
-            if not f.endswith('.lib.json'):
-                continue
-            with open(os.path.join(self.dir, f)) as fh:
-                d = json.load(fh)
-            name = d['crate']
-            self.crates[name] = d
+        for name, d in self.crates.items():
             for b in d['bodies']:
                 b['crate'] = name
                 self.bodies[b['path']] = b
